@@ -141,3 +141,24 @@ package filesystem
 //gvc:  loop 2 invariant pos: it2 >= 0
 //gvc:  ensures relisted: result == nil && !spec_time_zero(t.wall, t.ext) && old(has(s.index, h)) && !has(s.index, h) ==> calls("ObjectPacks") >= 1 && lastres("ObjectPacks") == nil
 //gvc:end
+
+// Object format (C01: ids are computed with the repository's hash). The
+// alternates of an object storage are opened with the storage's own options,
+// object format included; and a storage whose format is switched gets the
+// object hasher of the new format together with the new configuration.
+//gvc:func (*ObjectStorage).initAlternates
+//gvc:  props C01
+//gvc:  theory int
+//gvc:  opt coarse
+//gvc:  opt frame args
+//gvc:  loop 1 invariant pos: it1 >= 0
+//gvc:  sink NewObjectStorageWithOptions requires format: same_string(arg2.ObjectFormat, s.options.ObjectFormat)
+//gvc:end
+
+//gvc:func (*Storage).SetObjectFormat
+//gvc:  props C01
+//gvc:  theory int
+//gvc:  opt coarse
+//gvc:  opt frame args
+//gvc:  ensures switched: result == nil && calls("SetConfig") == 1 ==> s.oh != nil && (bytes_eq(of, "sha256") == bytes_eq(field(s.oh, "plumbing.ObjectHasher.format"), "sha256")) && same_string(s.options.ObjectFormat, of)
+//gvc:end
